@@ -479,3 +479,23 @@ Example C12_witness_repeated :
     XOk [mkorf 2 11 true 2] /\
   dedup_from [] [2; 0; 2; 0; -1] = [2; 0; -1].
 Proof. exact (conj eq_refl (conj eq_refl eq_refl)). Qed.
+
+(* custom codon sets of three-letter words that cannot overlap one another (no proper suffix of a word begins a word): on
+   gap-free input the codon list of a frame holds exactly the in-frame occurrences of the words (general form of
+   C12_codons_gapfree_complete) ... *)
+Theorem C12_custom_codons_complete : forall ws s f, codons3 ws = true -> no_overlap ws = true ->
+  forallb (fun c => negb (is_gap c)) s = true ->
+  forall i e, In (i, e) (hits ws s f) <->
+    e = (i + 3)%nat /\ (i < length s)%nat /\ Z.of_nat i mod 3 = frame_key f /\ word_at ws (skipn i (strand_str s f)) = true.
+Proof. exact custom_codons_complete. Qed.
+Print Assumptions C12_custom_codons_complete.
+
+(* ... and REFUTED for words that can overlap: find_orfs(start='ATG|GTG|TTG') on AATGTGCCCTAA does not see the in-frame GTG of
+   frame 0, it is hidden behind the ATG of frame 1 (re.finditer is non-overlapping). Custom sets are outside the property text;
+   the model reproduces the behaviour. *)
+Theorem C12_custom_overlap_refuted :
+  exists ws s f i, codons3 ws = true /\ forallb (fun c => negb (is_gap c)) s = true /\ no_overlap ws = false /\
+                   ((i < length s)%nat /\ Z.of_nat i mod 3 = frame_key f /\ word_at ws (skipn i (strand_str s f)) = true) /\
+                   ~ In (Z.of_nat i) (starts_w ws s f).
+Proof. exact custom_overlap_refuted. Qed.
+Print Assumptions C12_custom_overlap_refuted.
